@@ -210,6 +210,24 @@ func checkC14(r *Run) {
 		if !cs.GoOK {
 			continue
 		}
+		// lists of a union must interleave branches in an order no regrouping preserves
+		if o := cs.AM.obj("Panel"); o != nil && cs.Extra != "" && len(cs.Docs["Panel"]) > 0 {
+			if base, ok := cs.Docs["Panel"][0].Val.(map[string]any); ok {
+				row := func(t string) any { return map[string]any{"kind": "row", "title": t} }
+				graph := func(n string) any { return map[string]any{"kind": "graph", "name": n} }
+				for _, els := range [][]any{
+					{row("r1"), graph("g1"), row("r2"), graph("g2"), graph("g3"), row("r3")},
+					{graph("g1"), row("r1"), row("r2"), graph("g2")},
+				} {
+					doc := deepCopyJSON(base).(map[string]any)
+					doc["elements"] = els
+					d := amDoc{Obj: "Panel", Val: doc, Label: "interleaved union list"}
+					if cs.Validator.Validate("Panel", d.JSON()) == nil {
+						cs.Docs["Panel"] = append(cs.Docs["Panel"], d)
+					}
+				}
+			}
+		}
 		ctx, ok := cs.Contexts["go"]
 		if !ok {
 			continue
